@@ -15,6 +15,11 @@ def c03(ctx):
         os.environ.pop("VERIF_BOOT_SWALLOW", None)
     # workers that cannot boot, on real processes (the simulated kernel's workers do not run the worker code)
     boot_real.boot_side(ctx)
+    # the order of the server hooks (specs/Lifecycle.tla) followed on the hook log of real servers: start, TTIN / TTOU,
+    # HUP, a killed, a hung and an interrupted worker, TERM (drift only: the hook order is not a listed property)
+    from props import lifecycle
+    lifecycle.design(ctx)
+    lifecycle.follow(ctx)
 
 
 def c04(ctx):
